@@ -6,7 +6,7 @@ py = sys.executable
 def run(*a):
     return subprocess.check_output([py] + list(a), cwd=ROOT, text=True).strip()
 s = open(os.path.join(ROOT, "DESIGN.md")).read()
-for tag, out in (("status-table", run("tools/status_table.py")), ("seeded-table", run("tools/seeded_table.py", "table"))):
+for tag, out in (("status-table", run("tools/status_table.py")), ("seeded-table", run("tools/seeded_table.py", "table")), ("seeded-summary", run("tools/seeded_summary.py"))):
     s = re.sub(r"(<!-- BEGIN %s -->\n).*?(<!-- END %s -->)" % (tag, tag), lambda m: m.group(1) + out + "\n" + m.group(2), s, flags=re.S)
 open(os.path.join(ROOT, "DESIGN.md"), "w").write(s)
 print("DESIGN.md tables updated")
